@@ -193,6 +193,9 @@ def main():
                 rr = run_replay(module, ob['fn'], ob['params'], call_src, profile=True, twin=True)
                 if rr.get('result') == 'REACHED':
                     reached = True
+                    bounds[name]['mode'] = ('selector enumeration: the solver enumerates every tuple the pre: admits, the scenario '
+                                            'runs concretely on the real code per tuple') if rr.get('untraced') else \
+                        'symbolic: the symbolic arguments flow through the real code, z3 decides every branch'
                     functions.update(rr.get('functions', []))
                     if len(samples) < 40:
                         samples.append({'condition': name, 'case': call_src, 'kind': 'reachability witness'})
@@ -314,6 +317,7 @@ def finish(prop, tier, t_start, obligations, discharged, inconclusive, violation
         'functions_encoded': sorted(functions),
         'bounds': bounds,
         'stubs': getattr(mod, 'STUBS', []),
+        'tables': {n: repr(v)[:600] for n, v in vars(mod).items() if n.isupper() and isinstance(v, tuple) and n not in ('STUBS', 'OUTSIDE')},
         'outside_bound': getattr(mod, 'OUTSIDE', []),
         'not_constrained': getattr(mod, 'NOT_CONSTRAINED', []),
         'evaluations': max(paths, 1),
